@@ -35,7 +35,14 @@ class Ctx:
     @property
     def consts(self):
         from . import constfold
-        return self.get('consts', lambda: constfold.Inventory(self.src))
+        if 'consts' not in self._cache:
+            self._cache['consts'] = constfold.Inventory(self.src)
+            if self._cache['consts'].unresolved:
+                # compile sites the constant folder cannot read (pattern template and quoting function taken from a table, ...):
+                # second stage, by interpreting the enclosing function with marker values
+                from .props import sem
+                sem.resolve_compile_sites(self)
+        return self._cache['consts']
 
     @property
     def types(self):
